@@ -264,7 +264,13 @@ def main(chk: core.Check) -> int:
     chk.coverage["rule"] = "evaluations = leaves pushed through a (function, dtype, container) combination; distinct = distinct combinations"
     chk.assumptions += ["numba's type dispatch and awkward's ufunc protocol are third-party and outside the model", "geometry functions are called on valid indices only (numba does no bounds checking)",
                         "arrays of unknown type (e.g. ak.Array([])) are not integer inputs and are not generated"]
-    chk.prove(modules=["C14", "Nested"])
+    from translate import gen
+    from checks.c05 import bv_axiom_any
+    gs = [gen.gen_digi(), gen.gen_geom(), gen.gen_detparse()]
+    bad = [g for g in gs if not g["ok"]]
+    if bad:
+        chk.obligation_broken("translator", "regenerate the kernels / the record parsers (detectors/__init__.py -> Gen/DetParse.lean)", bad[0]["error"])
+    chk.prove(modules=["C14", "Nested", "DetParseTie"], extra_allowed=bv_axiom_any)
     try:
         ids = run_functions(chk, thorough)
         if ids is not None:
